@@ -15,11 +15,11 @@ CHECKS = {
    note='Row contents are fixed profiles, not an enumerated space. Expected stored form of an initial is what Django stores for the field type. Batched multi-mutation evolutions are covered by C03 (batched rows == stepwise rows) composed with this single-step oracle.',
    design='3/C02'),
  'C03': dict(level='model_checking', technique='exhaustive path enumeration (stateless, no dedup) over mutation sequences; each path run 4-5 ways on the real AppMutator/Evolver; violating paths delta-minimised',
-   text='Every reference-valid mutation sequence up to length 3 (quick) / 4 (thorough) over the narrow alphabet, length 2/3 over the full two-model, three-field and indexed (unique/db_index present from the start) alphabets, and length 4 (quick) / 5 (thorough) over a tiny alphabet in which freed field names are re-used, is executed stepwise (reference), batched through one AppMutator, batched again with the same objects, and through the real Evolver task pipeline (prepare then _build_batches); final signature (Diff-empty both ways), schema dump and row dump must agree and the mutation definitions must be unaltered.',
+   text='Every reference-valid mutation sequence up to length 3 (quick) / 4 (thorough) over the narrow alphabet, length 2/3 over the full two-model, three-field and indexed (unique/db_index present from the start) alphabets, every two-step path over a start whose column names differ from the field names also with an SQL barrier before its last step, relation + rename chains of length 3, and length 4 (quick) / 5 (thorough) over a tiny alphabet in which freed field names are re-used, is executed stepwise (reference), batched through one AppMutator, batched again with the same objects, and through the real Evolver task pipeline (prepare then _build_batches); final signature (Diff-empty both ways), schema dump and row dump must agree and the mutation definitions must be unaltered.',
    note='Stepwise execution (W1) defines the outcome; paths whose W1 run fails or differs from a fresh creation are outside the domain (C01). Random length-12 sequences of the property text are sampling and are not done.',
    design='3/C03'),
  'C10': dict(level='model_checking', technique='exhaustive enumeration of hand-over configurations (evolutions x on-disk migration chain x mark_applied prefix x start state x neighbour x driver) through the real Evolver/commands, order observed from signals',
-   text='Generated app with k evolutions followed by MoveToDjangoMigrations(mark_applied=S) and a real on-disk chain of m migrations, S every prefix, start states {empty database, database at V0, at each earlier evolution}, alone and next to an evolution-only app, with the app label equal to or different from its package name, through D2/D3/D4: evolution SQL must precede the app migrations, marked migrations are recorded once and not executed, the rest execute once in dependency order, the stored applied_migrations equal the django_migrations rows, upgrade_method is migrations, schema equals a fresh creation for consistent S, and a further run offers no hint, needs nothing and executes no SQL.',
+   text='Generated app with k evolutions followed by MoveToDjangoMigrations(mark_applied=S) and a real on-disk chain of m migrations, S every prefix, start states {empty database, database at V0, at each earlier evolution}, alone and next to an evolution-only app, with the app label equal to or different from its package name, on the default and on the second database (the other one must stay byte-identical), through D2/D3/D4: evolution SQL must precede the app migrations, marked migrations are recorded once and not executed, the rest execute once in dependency order, the stored applied_migrations equal the django_migrations rows, upgrade_method is migrations, schema equals a fresh creation for consistent S, and a further run offers no hint, needs nothing and executes no SQL.',
    note='mark_applied is consistent iff it names the migrations the evolutions cover; under-marked configurations are expected to fail with a duplicate column and are only counted.',
    design='3/C10'),
  'C11': dict(level='model_checking', technique='explicit-state BFS over rename/delete mutation sequences; invariant on the simulated signature and on PRAGMA foreign_key_list/foreign_key_check of the real database',
@@ -27,7 +27,7 @@ CHECKS = {
    note='Crashes/SQL errors of a transition are C01 business. Rows (R2) are present so foreign_key_check is meaningful.',
    design='3/C11'),
  'C12': dict(level='exploration', technique='exhaustive perturbation enumeration (every operator x every position of every generated evolution) through the real evolve command, judged by the reference semantics',
-   text='Every reference-valid evolution of the stated alphabets/depths is perturbed by every operator (drop, duplicate, swap, model/field name missing or other, attribute value, remove initial, re-target, add existing field, delete primary key) at every position, installed as a real evolution module and run through `evolve --execute --noinput`; a non-equivalent evolution must be rejected with a CommandError carrying an evolution error, no effect statement may be issued and schema, rows, recorded evolutions and stored signature must be unchanged.',
+   text='Every reference-valid evolution of the stated alphabets/depths is perturbed by every operator (drop, duplicate, swap, model/field name missing or other, attribute value, remove initial, re-target, add existing field, delete primary key, delete and re-add an explicit primary key) at every position, installed as a real evolution module and run through `evolve --execute --noinput`; a non-equivalent or reference-invalid evolution (missing model/field, existing field added, primary key deleted, needed initial value dropped) must be rejected with a CommandError carrying an evolution error, no effect statement may be issued and schema, rows, recorded evolutions and stored signature must be unchanged.',
    note='Equivalence of a perturbed evolution is decided by the reference semantics (field/model order ignored), never by the implementation.',
    design='3/C12'),
  'C13': dict(level='exploration', technique='exhaustive enumeration of hinted evolutions (C05 pair space through the real evolve --hint pipeline, plus constructed mutations over the value grammar); render -> exec -> compare',
@@ -35,19 +35,19 @@ CHECKS = {
    note='Hints that cannot be computed or applied at all belong to C05/C01.',
    design='3/C13'),
  'C14': dict(level='model_checking', technique='preview-vs-execution differential on every pending upgrade; exhaustive exploration of set-iteration-order choices (controlled scheduler for `set`); finite PYTHONHASHSEED sweep in separate interpreters as capture check',
-   text='For every pending upgrade of the generated histories (plus Meta-rich histories with 3-4 together/index entries, histories with raw SQL mutations, and two-app histories in which the first app produces no SQL) the `evolve --sql` text must equal, statement by statement with parameters substituted, what `evolve --execute` issues between applying_evolution and applied_evolution from the same snapshot; the name `set` is shadowed in the SQL/hint generating modules by an order-controlled subclass and every single iteration-order deviation (all permutations for sets <= 4; pairs of deviations in thorough) must leave preview and hint text unchanged; the same cases are digested under 4 (quick) / 16 (thorough) hash seeds in separate interpreters.',
+   text='For every pending upgrade of the generated histories (plus Meta-rich histories with 3-4 together/index entries, histories with raw SQL mutations, and two-app histories in which the first app produces no SQL) the `evolve --sql` text must equal, statement by statement with parameters substituted, what `evolve --execute` issues between applying_evolution and applied_evolution from the same snapshot, and the previewed text, run verbatim by a plain sqlite3 cursor on that snapshot, must leave the same schema and rows as --execute; the name `set` is shadowed in the SQL/hint generating modules by an order-controlled subclass and every single iteration-order deviation (all permutations for sets <= 4; pairs of deviations in thorough) must leave preview and hint text unchanged; the same cases are digested under 4 (quick) / 16 (thorough) hash seeds in separate interpreters.',
    note='Set literals/comprehensions and dict order are only covered by the finite seed sweep; a seed difference that the order exploration cannot explain is listed in the evidence.',
    design='3/C14'),
  'C15': dict(level='exploration', technique='exhaustive enumeration of app-removal configurations through the real evolve --purge command and Evolver API, plus BFS over DeleteModel/DeleteApplication sequences, with table-level non-interference oracle',
-   text='Two generated projects (3 and 4 apps with cross-app FK/M2M, self M2M, custom db_table names that are prefixes of each other) x every dependency-closed non-empty subset of apps removed from the installed set x {--purge, no purge} x {evolve command, Evolver.queue_purge_old_apps}: the dropped tables must be exactly the tables owned by the removed apps incl. their M2M tables, every other table must be byte-identical (sqlite_master entries and rows), the stored signature must lose exactly those apps, and without --purge nothing may change; a stale app whose models were all deleted before the purge must still lose its signature entry; plus every DeleteModel/DeleteApplication sequence to depth 2/3 through the bare AppMutator under the C01 oracle.',
+   text='Two generated projects (3 and 4 apps with cross-app FK/M2M, self M2M, custom db_table names that are prefixes of each other) x every dependency-closed non-empty subset of apps removed from the installed set x {--purge, no purge} x {evolve command, Evolver.queue_purge_old_apps}: the dropped tables must be exactly the tables owned by the removed apps incl. their M2M tables, every other table must be byte-identical (sqlite_master entries and rows), the stored signature must lose exactly those apps, and without --purge nothing may change; a stale app whose models were all deleted before the purge, and a stale app that was managed by migrations, must still lose their signature entry; plus every DeleteModel/DeleteApplication sequence to depth 2/3 through the bare AppMutator under the C01 oracle.',
    note='Only dependency-closed subsets can be removed from INSTALLED_APPS (Django itself would not start otherwise).',
    design='3/C15'),
  'C16': dict(level='exploration', technique='exhaustive enumeration of router configurations x evolutions x evolve orders on two real SQLite databases through Evolver(database_name=...)',
-   text='A three-model app under ALL 8 assignments of its models to the databases default/other (harness router answering allow_migrate and db_for_write), every evolution of an 8-letter alphabet up to length 1 (quick) / 2 (thorough) that names models on both sides, both evolve orders, evolutions discovered the normal way plus one run with in-memory evolutions, a scenario with per-database SQL evolution files and a scenario evolve / flush / evolve again: each database must hold exactly the routed models (schema equal to what Django creates for that subset), its stored signature must list exactly those models, the run must succeed, and the database not being evolved must be byte-identical before and after.',
+   text='A three-model app under ALL 8 assignments of its models to the databases default/other (harness router answering allow_migrate and db_for_write), every evolution of an 8-letter alphabet up to length 1 (quick) / 2 (thorough) that names models on both sides, both evolve orders, evolutions discovered the normal way plus one run with in-memory evolutions, a run under a router that sends every model it does not manage to default, a scenario with per-database SQL evolution files and a scenario evolve / flush / evolve again: each database must hold exactly the routed models (schema equal to what Django creates for that subset), its stored signature must list exactly those models, the run must succeed, the evolution must be recorded once in the evolved database, evolving again must be a no-op, and the database not being evolved must be byte-identical before and after.',
    note='Models on different databases are unrelated (no cross-database FKs).',
    design='3/C16'),
  'C17': dict(level='fault_enumeration', technique='acceptor over the interleaved signal/statement log of every fault-free and every faulted run of the C07 enumeration (incl. faults in the bookkeeping statements) plus no-op, two-app, split-batch and migration hand-over runs',
-   text='A small acceptor checks every run: evolving at most once and before any change; exactly one of evolved/evolving_failed, evolved only after the version row is saved and after the last change; applying_*/creating_models paired with their counterparts unless the run fails in between; every non-bookkeeping effect statement lies between a pair; _evolve_lock restored.',
+   text='A small acceptor checks every run: evolving at most once and before any change; exactly one of evolved/evolving_failed, evolved only after the version row is saved and after the last change; applying_*/creating_models paired with their counterparts unless the run fails in between; every non-bookkeeping effect statement lies between a pair; nothing is reported as done after the statement that failed; the evolutions a pair names are exactly those whose SQL runs between the pair (split batches, shared labels); _evolve_lock restored. Programs include two brand-new apps created in one batch.',
    note='Deferred index SQL for new models and PRAGMA statements are not attributed to a signal pair; migration signals are exercised by C10.',
    design='3/C17'),
  'C18': dict(level='model_checking', technique='same exhaustive path enumeration as C03; oracle on CREATE TABLE "TEMP_TABLE" counts per table in the statement traces',
@@ -55,7 +55,7 @@ CHECKS = {
    note='Rebuilds are recognised as CREATE TABLE "TEMP_TABLE" + RENAME in the connection.execute_wrapper trace; model identity follows RenameModel, ambiguous table-name reuse is skipped and counted.',
    design='3/C18'),
  'C04': dict(level='model_checking', technique='explicit-state exploration of upgrade-run histories (memoised on (code version, canonical database state)) through the real Evolver and the evolve/migrate commands; differential convergence oracle',
-   text='For every generated history V0..Vn (n=2 quick, 3 thorough; every evolution in the app SEQUENCE, discovered the normal way) and every start point, the database is installed fresh through the real Evolver and then upgraded along EVERY chain of later versions (direct and stepwise are the extremes); all final states must have the schema of a fresh install, equal rows per start point, exactly the SEQUENCE recorded once, a stored signature with empty Diff against the current models, and a further run must report nothing to do and execute no SQL.',
+   text='For every generated history V0..Vn (n=2 quick, 3 thorough; every evolution in the app SEQUENCE, discovered the normal way) and every start point, the database is installed fresh through the real Evolver and then upgraded along EVERY chain of later versions (direct and stepwise are the extremes); all final states must have the schema of a fresh install, equal rows per start point, exactly the SEQUENCE recorded once, a stored signature with empty Diff against the current models, and a further run must report nothing to do and execute no SQL. Hand-written two-app histories declare cross-app evolution dependencies (AFTER/BEFORE_EVOLUTIONS on a label, an app, at app level), and one shard uses an app whose label differs from its package name.',
    note='Histories whose single steps are not C01-clean are outside the domain and counted. A jump whose batched AppMutator run differs from the stepwise run is left out only when the C03 oracle, run on that very path, explains the divergence by recorded C03 findings alone; any other divergence stays in and is judged here. D3/D4 run on a deterministic stride of the histories, D2 on all.',
    design='3/C04'),
  'C05': dict(level='exploration', technique='exhaustive enumeration of ordered signature pairs over the field/Meta product space; diff -> hint -> simulate closure and eq-vs-diff agreement on the real code',
@@ -71,11 +71,11 @@ CHECKS = {
    note='Faults are raised from connection.execute_wrapper; statements on the bookkeeping tables, django_content_type and PRAGMA foreign_keys are not fault targets (outside the batch). Retry runs in the same process.',
    design='3/C07'),
  'C08': dict(level='model_checking', technique='explicit-state BFS over upgrade-run event histories on the real Evolver and mark/wipe commands, against a reference bookkeeping model',
-   text='Breadth-first search to depth 4 (quick) / 6 (thorough) over events {install code version, upgrade all apps, upgrade one app only, upgrade with purge, upgrade with a fault at the first/last statement, mark-evolution-applied, wipe-evolution} on two-app projects that share evolution labels; after every event the recorded (app,label) rows must equal the reference set without duplicates, new rows must hang on the version saved by that run, nothing is recorded by a failed run, a fresh app executes none of its sequence, and no label executes twice since it was last wiped.',
+   text='Breadth-first search to depth 4 (quick) / 6 (thorough) over events {install code version, upgrade all apps, upgrade one app only, upgrade with purge, upgrade with a fault at the first/last statement, mark-evolution-applied, wipe-evolution} on two-app projects that share evolution labels; after every event the recorded (app,label) rows must equal the reference set without duplicates, new rows must hang on the version saved by that run, nothing is recorded by a failed run, a fresh app executes none of its sequence, and no label executes twice since it was last wiped. Split-batch scenarios (the pending evolutions of one app separated by migration dependencies, two start states) count how often the SQL of each label occurs in the statement trace.',
    note='Executions are counted per label since its last wipe. States reached through a violating event are not expanded.',
    design='3/C08'),
  'C09': dict(level='model_checking', technique='exhaustive enumeration of all digraphs <=N nodes on the real DependencyGraph + exhaustive dependency configurations through the real Evolver',
-   text='All labelled digraphs on <=4 (quick) / <=5 (thorough) nodes through the real DependencyGraph.get_ordered, checked against an independent Kahn oracle; plus a four-app project (two apps with pending evolutions, a brand-new app, a migration-managed app with two pending migrations) under every assignment of at most one (quick) / two (thorough) declared dependencies from the menu {AFTER,BEFORE}_{EVOLUTIONS,MIGRATIONS} at evolution and app level, from two start states, through the real Evolver; the execution order is recognised from the executed SQL itself.',
+   text='All labelled digraphs on <=4 (quick) / <=5 (thorough) nodes through the real DependencyGraph.get_ordered, checked against an independent Kahn oracle; plus a four-app project (two apps with pending evolutions, a brand-new app, a migration-managed app with two pending migrations) under every assignment of at most one (quick) / two (thorough) declared dependencies from the menu {AFTER,BEFORE}_{EVOLUTIONS,MIGRATIONS} at evolution and app level, from two start states, through the real Evolver; the execution order is recognised from the executed SQL itself; plus an app handed over to migrations by an evolution that also declares AFTER/BEFORE_MIGRATIONS of its own.',
    note='Independent 15-line Kahn implementation is the trusted oracle.',
    design='3/C09'),
 }
